@@ -8,6 +8,7 @@ import (
 )
 
 var debugMerge = os.Getenv("GOSYM_DEBUG_MERGE") != ""
+var mergeMode = os.Getenv("GOSYM_MERGE_MODE")
 
 
 // Pure-region if-conversion (DESIGN §2.3): both sides of a feasible two-way branch are executed
@@ -183,7 +184,19 @@ func (in *Interp) runSide(fr *Frame, b *ssa.BasicBlock, start, join *ssa.BasicBl
 	if start != join {
 		in.runFrame(fr, join)
 	}
-	// phi values of the join block along the incoming edge
+	// phi values of the join block: a nested merge that ended at this very join block has already
+	// computed them (merged); otherwise they are read along the incoming edge
+	if fr.skipPhis {
+		for _, instr := range join.Instrs {
+			phi, ok := instr.(*ssa.Phi)
+			if !ok {
+				break
+			}
+			res.phis = append(res.phis, fr.env[phi])
+		}
+		res.ok = true
+		return
+	}
 	idx := -1
 	for k, p := range join.Preds {
 		if p == fr.prev {
@@ -215,6 +228,9 @@ func (in *Interp) tryMerge(fr *Frame, b *ssa.BasicBlock, cond *Term) (okRes bool
 	if join == nil && len(fr.defers) > 0 {
 		return false, nil
 	}
+	if join == nil && mergeMode == "no-ret" {
+		return false, nil
+	}
 	if in.mergeBlacklist[b] >= 3 {
 		return false, nil
 	}
@@ -228,6 +244,9 @@ func (in *Interp) tryMerge(fr *Frame, b *ssa.BasicBlock, cond *Term) (okRes bool
 	if !c.ok {
 		in.Stats.MergeFails++
 		in.mergeBlacklist[b]++
+		return false, nil
+	}
+	if mergeMode == "phi-only" && (len(a.writes) > 0 || len(c.writes) > 0) {
 		return false, nil
 	}
 	// merge heap
